@@ -143,6 +143,16 @@ struct World {
 	std::unique_ptr<BinaryTree<RealVector> > rtree; // same kind of tree over reg.inputs()
 };
 
+// batch sizes for the exhaustive back-end's copy of the data: unequal, alternating small / large first batch
+static std::vector<std::size_t> raggedSizes(std::size_t n) {
+	std::vector<std::size_t> s;
+	if (n < 3) { s.push_back(n); return s; }
+	std::size_t a = (n % 2) ? std::max<std::size_t>(1, n / 4) : (n / 2 + 1);
+	std::size_t rest = n - a, b = std::max<std::size_t>(1, rest / 3);
+	s.push_back(a);
+	while (rest > 0) { std::size_t c = std::min(rest, b + (s.size() % 2)); s.push_back(c); rest -= c; }
+	return s;
+}
 static BinaryTree<RealVector>* build(std::string const& kind, Data<RealVector>& inputs, View* view, World& w, TreeConstruction tc) {
 	if (kind == "kd") return new KDTree<RealVector>(inputs, tc);
 	if (kind == "lc") return new LCTree<RealVector>(inputs, tc);
@@ -239,7 +249,10 @@ int main(int argc, char** argv) {
 				std::size_t k; int wt; is >> k >> wt;
 				RealVector q(w->dim); for (std::size_t d = 0; d < w->dim; ++d) { long h; is >> h; q(d) = 0.5 * (double)h / g_scale; }
 				TreeNearestNeighbors<RealVector, RealVector> tnn(w->reg, w->rtree.get());
-				SimpleNearestNeighbors<RealVector, RealVector> snn(w->reg, &w->lin);
+				// the exhaustive back-end searches its own copy of the data, stored in batches of UNEQUAL size (first batch smaller or
+				// larger than the later ones): its result must not depend on the batch layout
+				LabeledData<RealVector, RealVector> regRagged = w->reg; regRagged.makeIndependent(); regRagged.repartition(raggedSizes(w->n));
+				SimpleNearestNeighbors<RealVector, RealVector> snn(regRagged, &w->lin);
 				NearestNeighborModel<RealVector, RealVector> mt(&tnn, (unsigned int)k), ms(&snn, (unsigned int)k);
 				mt.uniformWeights() = (wt == 0); ms.uniformWeights() = (wt == 0);
 				RealVector a = mt(q), b = ms(q);
@@ -260,7 +273,8 @@ int main(int argc, char** argv) {
 				LabeledData<RealVector, unsigned int> ds = createLabeledDataFromRange(w->pts, lab);
 				TreeNearestNeighbors<RealVector, unsigned int> tnn(ds, w->tree.get());      // same points, same order as the tree's data set
 				AbstractKernelFunction<RealVector> const* metric = (w->kind == "khc2") ? (AbstractKernelFunction<RealVector> const*)w->poly.get() : (AbstractKernelFunction<RealVector> const*)&w->lin;
-				SimpleNearestNeighbors<RealVector, unsigned int> snn(ds, metric);
+				LabeledData<RealVector, unsigned int> dsRagged = ds; dsRagged.makeIndependent(); dsRagged.repartition(raggedSizes(w->n));
+				SimpleNearestNeighbors<RealVector, unsigned int> snn(dsRagged, metric);
 				NearestNeighborModel<RealVector, unsigned int> mt(&tnn, (unsigned int)k), ms(&snn, (unsigned int)k);
 				mt.setDistanceWeightType(wt == 0 ? NearestNeighborModel<RealVector, unsigned int>::UNIFORM : NearestNeighborModel<RealVector, unsigned int>::ONE_OVER_DISTANCE);
 				ms.setDistanceWeightType(wt == 0 ? NearestNeighborModel<RealVector, unsigned int>::UNIFORM : NearestNeighborModel<RealVector, unsigned int>::ONE_OVER_DISTANCE);
